@@ -845,21 +845,38 @@ func StaleClass(spec *Spec, label string, got, want map[string]map[string]*Node)
 	if cls != "" {
 		return cls
 	}
-	// a dependent of a directory output that is itself stale in this step
-	t := spec.Target(label)
-	if t != nil {
-		for _, d := range DepsOf(t) {
-			if got[d] == nil || want[d] == nil {
-				continue
-			}
-			for o, g := range got[d] {
-				if w := want[d][o]; w != nil && !g.Equal(w) && staleDirClass(g, w) != "" {
-					return "dependent-of-stale-directory-output-not-rebuilt"
-				}
-			}
-		}
+	// a dependent - direct, or through dependents that are stale for the same reason - of a directory output that
+	// is itself stale in this step
+	if dependsOnStaleDir(spec, label, got, want, map[string]bool{}) {
+		return "dependent-of-stale-directory-output-not-rebuilt"
 	}
 	return "stale-output"
+}
+
+func dependsOnStaleDir(spec *Spec, label string, got, want map[string]map[string]*Node, seen map[string]bool) bool {
+	t := spec.Target(label)
+	if t == nil || seen[label] {
+		return false
+	}
+	seen[label] = true
+	for _, d := range DepsOf(t) {
+		if got[d] == nil || want[d] == nil {
+			continue
+		}
+		stale := false
+		for o, g := range got[d] {
+			if w := want[d][o]; w != nil && !g.Equal(w) {
+				if staleDirClass(g, w) != "" {
+					return true
+				}
+				stale = true
+			}
+		}
+		if stale && dependsOnStaleDir(spec, d, got, want, seen) {
+			return true
+		}
+	}
+	return false
 }
 
 // ---------------------------------------------------------------------------------------------
